@@ -663,9 +663,9 @@ Proof.
   unfold p_deps in H. destruct (p_fwd x); [reflexivity|destruct H].
 Qed.
 
-Lemma p_ld_links_fixed ms mt proj n cs roots L :
+Lemma p_ld_links_fixed ms mt proj as_needed n cs roots L :
   p_final_libs ms mt proj true n cs = Some L -> incl roots (p_user ms mt proj n cs) ->
-  p_ld_links ms mt proj roots L = true.
+  p_ld_links ms mt proj as_needed roots L = true.
 Proof.
   intros H I. unfold p_ld_links. eapply ld_links_fixed; [apply p_refs_deps|exact H|exact I].
 Qed.
